@@ -121,6 +121,9 @@ def _exporter_reuse(doc, p):
     b = e.export_string(doc, EO(kern_type=kp.Encoding.bEkern))
     return (a, b, b == kp.dumps(doc, encoding=kp.Encoding.bEkern))
 INST = [(i, p) for i, (_, n, _) in enumerate(OPS) for p in range(n)]      # all operation instances
+# observers of the two-step histories in the quick tier: first and last parameter value of every kind + every encoding
+OBS = [k for k, (i, p) in enumerate(INST) if p in (0, OPS[i][1] - 1) or OPS[i][0] == 'dumps(encoding)']
+B_DOCS = (0, 1, 3)          # quick: two pool documents + the document with notes before the first clef (exports that raise half-way)
 
 
 def run(inst, doc):
@@ -217,14 +220,22 @@ def _dumps_range(di, a, b):
 
 # ------------------------------------------------------------------ C14.b two-step histories
 def ob_b(d: int, o1: int, o2: int) -> bool:
-    nd = ctx.pick(2, len(TEXTS))
-    assume(0 <= d < nd and 0 <= o1 < len(INST) and 0 <= o2 < len(INST))
-    return _b_body(choose(d, nd), choose(o1, len(INST)), choose(o2, len(INST)))
+    nd = ctx.pick(len(B_DOCS), len(TEXTS))
+    n2 = ctx.pick(len(OBS), len(INST))
+    assume(0 <= d < nd and 0 <= o1 < len(INST) and 0 <= o2 < n2)
+    return _b_body(choose(d, nd), choose(o1, len(INST)), choose(o2, n2))
+
+
+_REF = {}
 
 
 @native
 def _b_body(d, i1, i2):
-    ref = run(i2, _fresh(d))                 # reference taken BEFORE the first operation
+    if not ctx.thorough():
+        d, i2 = B_DOCS[d], OBS[i2]
+    if (d, i2) not in _REF:
+        _REF[d, i2] = run(i2, _fresh(d))     # reference taken BEFORE the first operation (once per process, on a fresh import)
+    ref = _REF[d, i2]
     doc = _fresh(d)
     run(i1, doc)
     r = run(i2, doc)
@@ -265,8 +276,11 @@ OBLIGATIONS = [
        bounds={'quick': '3 pool documents', 'thorough': 'same'}),
     Ob(id='C14.b', fn=ob_b, title='two-step histories: the second result equals the second operation alone on a fresh import',
        shard_of=lambda d, o1, o2: o1, shards={'quick': 16, 'thorough': 16}, budget_s={'quick': 170, 'thorough': 1800},
-       witnesses=[{'d': 0, 'o1': 3, 'o2': 0}], min_confirmed=3000, enumerated='document, ordered pair of operation instances',
-       bounds={'quick': '2 documents x all ordered pairs of the %d operation instances' % len(INST), 'thorough': '3 documents'}),
+       witnesses=[{'d': 0, 'o1': 3, 'o2': 0}, {'d': 2, 'o1': 5, 'o2': 0}], min_confirmed=3000, native_body=True,
+       enumerated='document, ordered pair of operation instances',
+       bounds={'quick': '3 documents (one with notes before the first clef and unequal signatures, where exports raise half-way) x all %d first operations x %d observers '
+                        '(first and last parameter value of each kind, every encoding)' % (len(INST), len(OBS)),
+               'thorough': '4 documents x all ordered pairs of the %d operation instances' % len(INST)}),
     Ob(id='C14.c', fn=ob_c, title='two imports of the same text are indistinguishable (snapshot and every operation)',
        shard_of=lambda d, op: op, shards={'quick': 4, 'thorough': 4}, budget_s={'quick': 120, 'thorough': 600},
        witnesses=[{'d': 0, 'op': 0}], min_confirmed=150, enumerated='document, operation instance', bounds={'quick': '3 x all instances', 'thorough': 'same'}),
